@@ -79,6 +79,7 @@ def run(tier):
     else:
         c.mc_pass('Alleles', 'MC_Alleles_design_t.cfg', workers=12, timeout=1500)
         c.mc_pass('Alleles', 'MC_Alleles_design_t2.cfg', workers=12, timeout=1500)
+        c.mc_pass('Alleles', 'MC_Alleles_design_t3.cfg', workers=8, timeout=1500)
         c.mc_pass('Alleles', 'MC_Alleles_rules_t.cfg', workers=8, timeout=1500,
                   actions_required=['StartRun', 'Query', 'FetchVCF', 'FetchAbsent', 'Answer'])
     c.mc_negative('Alleles', 'MC_Alleles_impl_lazyflag_q.cfg', expect_inv='Inv_C18_Truth', workers=4)
